@@ -286,4 +286,86 @@ theorem evalE_names : ∀ (names : List Name) (n : MNode J),
       obtain ⟨m, e1, e2, e3⟩ := ih1 d hw
       exact ⟨m, e1, by simp [e2, MNode.loc], e3⟩
 
+
+/-- an entry's footprint is duplicate-free when the container's is -/
+theorem nodup_of_get (h : Heap) : ∀ (ys : List J) (xs : List Val) (p : Nat) (c : Val) (jc : J),
+    (fpList h ys xs).Nodup → UnfListJ h ys xs → xs[p]? = some c → UnfJ h jc c → ys[p]? = some jc → (fpJ h jc c).Nodup
+  | j :: ys, v :: xs, 0, c, jc, hn, _, hp, _, hy => by
+    simp only [List.getElem?_cons_zero, Option.some.injEq] at hp hy
+    subst hp; subst hy
+    simp only [fpList, List.nodup_append] at hn
+    exact hn.1
+  | j :: ys, v :: xs, p+1, c, jc, hn, hu, hp, hc, hy => by
+    simp only [List.getElem?_cons_succ] at hp hy
+    simp only [fpList, List.nodup_append] at hn
+    simp only [UnfListJ] at hu
+    exact nodup_of_get h ys xs p c jc hn.2.1 hu.2 hp hc hy
+  | [], [], _, _, _, _, _, hp, _, _ => by simp at hp
+  | [], _ :: _, _, _, _, _, hu, _, _, _ => by simp [UnfListJ] at hu
+  | _ :: _, [], _, _, _, _, hu, _, _, _ => by simp [UnfListJ] at hu
+
+/-! ### writes to one object, seen from the rest of the store -/
+
+theorem hview_agree {h h' : Heap} {rid : Nat} (hag : h'[rid]? = h[rid]?) : hview h' (.ref rid) = hview h (.ref rid) := by
+  simp [hview, hag]
+
+/-- a walk that ends at object `id` only passes through other objects: it is the same walk in
+any store that differs from `h` at `id` only -/
+theorem walk_frame (h h' : Heap) (id : Nat) (hag : ∀ x, x ≠ id → h'[x]? = h[x]?) :
+    ∀ (loc : List Name) (root : Val) (j : J), UnfJ h j root → (fpJ h j root).Nodup →
+      walk (hview h) root loc = some (.ref id) → walk (hview h') root loc = some (.ref id)
+  | [], root, j, _, _, hw => by simpa [walk] using hw
+  | nm :: l, root, j, hu, hnd, hw => by
+    simp only [walk] at hw ⊢
+    cases hc : childAt (hview h root) nm with
+    | none => simp [hc] at hw
+    | some c =>
+      simp only [hc] at hw
+      cases root with
+      | atom a => cases nm <;> simp [childAt, hview] at hc
+      | ref rid =>
+        cases j with
+        | obj kvs =>
+          simp only [UnfJ] at hu
+          obtain ⟨es, ho, hkv⟩ := hu
+          obtain ⟨hkeys, hul⟩ := (unfKvs_iff h kvs es).mp hkv
+          have hc0 := hc
+          rw [hview_ref_dict ho] at hc
+          cases nm with
+          | idx i => simp [childAt] at hc
+          | key k =>
+            simp only [childAt] at hc
+            obtain ⟨p, _, p1, _⟩ := kvs_pos kvs es k c hkeys hc
+            obtain ⟨jc, gy, g2, g3⟩ := unfList_get hul p1
+            simp only [fpJ, ho, fpKvs_eq, List.nodup_cons] at hnd
+            have hid := g3 id (walk_mem_fp h id l c jc g2 hw)
+            have hne : rid ≠ id := fun e => hnd.1 (e ▸ hid)
+            rw [hview_agree (hag rid hne), hc0]
+            have hsub : (fpJ h jc c).Nodup := nodup_of_get h _ _ p c jc hnd.2 hul p1 g2 gy
+            exact walk_frame h h' id hag l c jc g2 hsub hw
+        | arr ys =>
+          simp only [UnfJ] at hu
+          obtain ⟨xs, ho, hul⟩ := hu
+          have hc0 := hc
+          rw [hview_ref_list ho] at hc
+          cases nm with
+          | key k => simp [childAt] at hc
+          | idx i =>
+            simp only [childAt, getPy?_eq_norm] at hc
+            cases hni : normIndex xs.length i with
+            | none => simp [hni] at hc
+            | some p =>
+              simp only [hni, Option.bind_some] at hc
+              obtain ⟨jc, gy, g2, g3⟩ := unfList_get hul hc
+              simp only [fpJ, ho, List.nodup_cons] at hnd
+              have hid := g3 id (walk_mem_fp h id l c jc g2 hw)
+              have hne : rid ≠ id := fun e => hnd.1 (e ▸ hid)
+              rw [hview_agree (hag rid hne), hc0]
+              exact walk_frame h h' id hag l c jc g2 (nodup_of_get h ys xs p c jc hnd.2 hul hc g2 gy) hw
+        | null => simp [UnfJ] at hu
+        | bool b => simp [UnfJ] at hu
+        | int n => simp [UnfJ] at hu
+        | half n => simp [UnfJ] at hu
+        | str s => simp [UnfJ] at hu
+
 end Treepath
